@@ -5,6 +5,7 @@
 use crate::fw::*;
 use crate::ilgen::{self, GenOpts};
 use crate::locgraph::{loc_str, LocGraph};
+use falcon::il;
 use falcon::il::{Function, FunctionLocation as Loc, Program, ProgramLocation, RefFunctionLocation, RefProgramLocation};
 use serde_json::json;
 use std::collections::{BTreeMap, BTreeSet};
@@ -239,6 +240,23 @@ fn gen_function(rng: &mut Rng) -> Function {
             }
         }
     }
+    // phi nodes are not locations: one function in four carries phi nodes in some blocks, also in blocks
+    // that hold no instructions (as the join block of a diamond has after the SSA transformation)
+    if rng.chance(1, 4) {
+        let idxs: Vec<usize> = f.blocks().iter().map(|b| b.index()).collect();
+        for bi in idxs {
+            if rng.chance(1, 2) {
+                let preds: Vec<usize> = f.control_flow_graph().predecessor_indices(bi).unwrap_or_default();
+                let mut phi = il::PhiNode::new(il::scalar("s1", 8));
+                for p in preds {
+                    phi.add_incoming(il::scalar("s1", 8), p);
+                }
+                if let Ok(b) = f.control_flow_graph_mut().block_mut(bi) {
+                    b.add_phi_node(phi);
+                }
+            }
+        }
+    }
     // the function's own address need not be its lowest instruction address (cold parts placed
     // before the entry): half of the functions are given the address of a later instruction
     if rng.bool() {
@@ -259,6 +277,30 @@ impl Check for C18 {
             p.add_function(gen_function(rng));
         }
         self.check_program(ctx, &p, "rnd");
+        // a program assembled from functions that already belonged to another program (they arrive with an index):
+        // a fresh function first, then clones taken out of `p` in a random order
+        if rng.chance(1, 3) {
+            let mut q = Program::new();
+            if rng.bool() {
+                q.add_function(gen_function(rng));
+            }
+            let mut fs: Vec<Function> = p.functions().iter().map(|f| (*f).clone()).collect();
+            if rng.bool() {
+                fs.reverse();
+            }
+            for f in fs {
+                q.add_function(f);
+            }
+            // every function must be findable under the index it reports
+            for f in q.functions() {
+                ctx.eval();
+                let ok = f.index().and_then(|i| q.function(i)).map(|g| g.address() == f.address() && g.control_flow_graph().blocks().len() == f.control_flow_graph().blocks().len()).unwrap_or(false);
+                if !ok {
+                    ctx.violation("program:function_not_stored_under_its_index:reassembled", json!({"index": f.index(), "address": format!("0x{:x}", f.address())}));
+                }
+            }
+            self.check_program(ctx, &q, "reassembled");
+        }
         if ctx.want_sample() {
             ctx.sample(json!({"functions": p.functions().iter().map(|f| ilgen::describe(f)).collect::<Vec<_>>()}));
         }
